@@ -601,8 +601,10 @@ impl Vm {
     }
 
     pub(crate) fn push_frame(&mut self, mut frame: CallFrame) {
-        // Each function call starts with an implicit `undefined` return value.
-        self.return_value = JsValue::undefined();
+        // Each function call starts with an implicit `undefined` return value. The caller's
+        // accumulator (the completion value of the statements a script or `eval` has run so
+        // far) is restored when the frame is popped.
+        frame.caller_return_value = std::mem::take(&mut self.return_value);
 
         // NOTE: We need to check if we already pushed the registers,
         //       since generator-like functions push the same call
@@ -654,7 +656,9 @@ impl Vm {
             return None;
         }
         self.shadow_stack.pop();
-        self.frames.pop()
+        let mut frame = self.frames.pop()?;
+        self.return_value = std::mem::take(&mut frame.caller_return_value);
+        Some(frame)
     }
 
     /// Handles an exception thrown at position `pc`.
